@@ -285,7 +285,21 @@ def problem_case(
         types = types + ONE_DIRECTIONAL_TYPES * 3  # constraints that watch one bound only
     for _ in range(draw(st.integers(min_props, max_props))):
         case["props"].append(draw(propagator_on(case, types, max_arity, allow_zero_cap)))
+    if len(idx) > 1 and draw(st.integers(0, 2)) == 0:
+        # variables in any order: variable number d need not be the one that owns shared domain d
+        case = shuffle_variables(case, list(draw(st.permutations(list(range(len(idx)))))))
     return case
+
+
+def shuffle_variables(case, perm):
+    """perm[j] = old index of the variable that becomes variable j."""
+    pos = {old: j for j, old in enumerate(perm)}
+    return {
+        "shr": case["shr"],
+        "idx": [case["idx"][old] for old in perm],
+        "off": [case["off"][old] for old in perm],
+        "props": [{"type": p["type"], "vars": [pos[v] for v in p["vars"]], "params": p["params"]} for p in case["props"]],
+    }
 
 
 VARS = ["first", "smallest", "greatest", "max_regret"]
